@@ -4038,3 +4038,11 @@ mod tests {
         );
     }
 }
+
+/// Verification-only access to the private merge kernel (feature `echo_verif`).
+#[cfg(feature = "echo_verif")]
+pub(crate) fn verif_merge_parallel_deltas(
+    worker_results: Vec<WorkerResult>,
+) -> Result<Vec<WarpOp>, EngineError> {
+    merge_parallel_deltas(worker_results)
+}
